@@ -273,6 +273,16 @@ func (e *Exec) objVal(st *State, obj types.Object, pos token.Pos) Val {
 			// package-level variable: a global cell
 			k := "G:" + o.Pkg().Path() + "." + o.Name()
 			s := e.sr.sortOf(o.Type())
+			// well-known sentinel errors of the standard library (io.EOF, filepath.SkipDir, os.ErrNotExist, ...) are
+			// never reassigned: one non-nil constant each, whatever has been havocked since
+			if !strings.Contains(o.Pkg().Path(), ".") && s == SInt && types.Identical(o.Type(), errorType()) &&
+				(strings.HasPrefix(o.Name(), "Err") || o.Name() == "EOF" || strings.HasPrefix(o.Name(), "Skip")) {
+				h := e.initialHeap(k, s)
+				e.sc.Assert(Not(Eq(h, IntLit(0))))
+				v := Val{T: h, GT: o.Type()}
+				e.typeFactsGlobal(v)
+				return v
+			}
 			if h, ok := st.heaps[k]; ok {
 				return Val{T: h, GT: o.Type()}
 			}
